@@ -13,7 +13,8 @@ namespace OpsRenamePlan
 
 def tables : Tables :=
   { exts := Gen.coercionExtensions, extMax := Gen.coercionExtMaxLen, reserved := Gen.windowsReserved,
-    isAcr := (CaseModel.acrOf Gen.defaultAcronyms).isAcr }
+    isAcr := (CaseModel.acrOf Gen.defaultAcronyms).isAcr, allVariants := Gen.renameAllVariantsInName,
+    crossRootCheck := Gen.crossRootConflictCheck }
 
 def ventry? : List String → Option (VEntry × List String)
   | k :: v :: a :: rest =>
@@ -67,6 +68,17 @@ def run (mode flags : String) (cwd : Path) (roots : List Path) (vmap : List VEnt
       let c0 := collect tables o vmap (entriesOf t r)
       c0.filter (fun x => !(x.path == o.cwd)))
     finish s!"ok {showRens all}"
+  | "coerced" =>
+    -- model only: the entries whose name coercion takes over (`apply_coercion` returns a name), over all roots
+    let hit (e : Entry) : Bool :=
+      match e.1.getLast? with
+      | some name =>
+        (match firstKey vmap name with
+         | some v => o.coerce && (applyCoercion tables name v.key v.val).isSome
+         | none => false)
+      | none => false
+    let ps := (roots.flatMap (fun r => (entriesOf t r).filter hit)).map (fun e => hexOrDash (joinPath e.1))
+    finish s!"ok {" ".intercalate (sortStrs ps)}"
   | "rename" | "renameroot" =>
     (match planRenames tables o vmap t roots (mode == "renameroot") with
      | .ok rs => finish s!"ok {showRens rs}"
